@@ -169,6 +169,10 @@ def check(ck: Checker) -> None:
     from .generic_lints import run_all as _lints
 
     _lints(ck, "C04.aliasing", "hashfile.transfer")
+    from .transfer_common import check_claimed_attempted, check_missing_readonly
+
+    ck.floor("C04.allfiles", check_claimed_attempted(ck, m, "C04.allfiles"), 1, "pool-claiming statements in the per-directory loop")
+    check_missing_readonly(ck, m, "C04.guard")
     from . import round4 as _r4
 
     _r4.hashinfo_identity(ck, "C04.guard")
